@@ -417,7 +417,7 @@ def check_tuple_access(ctx, unit, rule="E.tuple-access"):
             why = "forwards to access_helper<%s> on %s" % (m2.group(1) if m2 else "?", canon(v.args[0]).split("#")[0] if v.args else "?")
         ctx.inst(rule, "%s::access%s" % ((f.owner_clsqn or "")[:60], " const" if "const" in f.params()[0]["t"] else ""), ok, f.loc, why, f)
     st = [f for f in unit.functions if f.owner_cls == "frg::_tuple::storage" and f.kind == "ctor" and len(f.params()) >= 1
-          and f.params()[0]["n"] == "item"]
+          and not f.get("copy") and not f.get("move") and "storage<" not in f.params()[0]["t"]]
     for f in st:
         inits = {n.get("field"): n for n in f.events() if n.kind == "CtorInit" and n.get("field")}
         ok = set(inits) == {"item", "tail"}
